@@ -51,9 +51,26 @@ variable [NumOps F]
 
 def renderTokens (ts : List (Token F)) : Str := joinWith [' '] (ts.map Token.render)
 
+/-- how `ProgramLines::list` spells the tokens of a line: like `Display`, except
+    that a numeral right after an identifier (which can only have been written
+    with a leading decimal point) is listed without its leading zero, so that it
+    is not absorbed into the identifier when the listing is read back. -/
+def listSpellings : Option (Token F) → List (Token F) → List Str
+  | _, [] => []
+  | prev, t :: rest =>
+    let s := t.render
+    let s :=
+      match prev, t with
+      | some (.symbol sym), .num _ =>
+        if !endsWithDollar sym && s.head? == some '0' then (if s == ['0'] then ['.', '0'] else s.tail) else s
+      | _, _ => s
+    s :: listSpellings (some t) rest
+
+def listLine (ts : List (Token F)) : Str := joinWith [' '] (listSpellings none ts)
+
 /-- `ProgramLines::list`: one text per line, each ending in a newline -/
 def Lines.list (l : Lines F) : Option (List Str) :=
-  l.listTokens.map (fun ls => ls.map (fun (n, ts) => natToStr n ++ ' ' :: renderTokens ts ++ ['\n']))
+  l.listTokens.map (fun ls => ls.map (fun (n, ts) => natToStr n ++ ' ' :: listLine ts ++ ['\n']))
 
 /-- `data_iterator`: the DATA chunks in line order -/
 def Lines.dataChunks (l : Lines F) : Option (List (Loc × List (DataElement F))) :=
